@@ -62,7 +62,7 @@ LEVEL_NOTE = ("Trusted: Coq kernel, extraction, the two abstractions (live objec
               "members for Griffe, by design: test_name_resolution), walrus targets, `nonlocal` beyond the spec side, star imports (C05), "
               "inherited members in attribute chains (C07), alias resolution of the returned first-link path (C06; the direct check lets CPython "
               "evaluate the path). While /repo lacks the three fix commits the check runs the as-is form of the model and lists F1/F3/F4 as "
-              "known; on the fix clone it runs the repaired form and their witnesses must give CPython's answers. All 29 theorems are closed "
+              "known; on the fix clone it runs the repaired form and their witnesses must give CPython's answers. All 31 theorems are closed "
               "under the global context.")
 MODEL = ("Model.C04_expr", "run_C04e")
 COQ_TARGETS = ["Proofs/C04_scope.vo", "Proofs/C04_expr.vo"]
@@ -1293,7 +1293,7 @@ def griffe_side(ctx, g, d, files):
     if not hasattr(ctx, "_xq"):
         ctx._xq = []
     if len(ctx._xq) < 80:
-        ctx._xq += [q for q in queries if q[0] in ("expr", "resolve2", "attr2", "from")][:8] + [["stmts", scopes[q]["mod"].comps, scopes[q]["mod"].is_init, q, scopes[q]["stmts"]] for q in order[:1]]
+        ctx._xq += [q for q in queries if q[0] in ("expr", "resolve2", "attr2", "from", "deco")][:8] + [["stmts", scopes[q]["mod"].comps, scopes[q]["mod"].is_init, q, scopes[q]["stmts"]] for q in order[:1]]
     info = {"paths": paths, "sites": {}, "imports": [], "scopes": scopes, "members": members, "pmembers": pmembers, "coll": coll}
     for q, (what, s, node, expr), mo in zip(queries, meta, outs):
         if what == "x-live":
